@@ -78,17 +78,28 @@ let run line =
        emit (observe !s "n" (live_count !s) ns !expected);
        List.iter (fun tok ->
          if tok = "g" then emit (observe !s "g" Z0 ns !expected) else begin
-           let bs, len, fault = parse_arg (String.sub tok 1 (String.length tok - 1)) in
-           let al = alloc_for !s.reqs fault in
-           let op = match tok.[0], len with
-             | 'l', Some l -> OpSetLen (bs, l)
-             | 'z', _ -> OpSet (bs @ [Z0])
+           let body = String.sub tok 1 (String.length tok - 1) in
+           let op, fault = match tok.[0] with
+             | 'l' -> (match parse_arg body with
+                       | bs, Some l, f -> OpSetLen (bs, l), f | _ -> failwith "str step l")
+             | 'z' -> let bs, _, f = parse_arg body in OpSet (bs @ [Z0]), f
+             | 'o' | 's' ->
+               (* own-buffer source: o<off>,<len>[!k]  /  s<off>[!k] *)
+               let body, f = match String.index_opt body '!' with
+                 | Some i -> String.sub body 0 i,
+                             Some (int_of_string (String.sub body (i+1) (String.length body - i - 1)))
+                 | None -> body, None in
+               (match tok.[0], String.split_on_char ',' body with
+                | 'o', [off; l] -> OpSetOwnLen (z_of_string off, z_of_string l), f
+                | 's', [off] -> OpSetOwn (z_of_string off), f
+                | _ -> failwith "str step own")
              | _ -> failwith "str step" in
+           let al = alloc_for !s.reqs fault in
            match str_step al !s op with
            | SUB -> raise Ub
            | SOk (s', ret, _) ->
              let dl = Z.sub (live_count s') (live_count !s) in
-             if ret = z_of_int 1 then expected := op_bytes op;
+             if ret = z_of_int 1 then expected := op_bytes !expected op;
              s := s';
              emit (observe s' (string_of_z ret) dl ns !expected)
          end) steps;
